@@ -319,7 +319,7 @@ au_read_header (SF_PRIVATE *psf)
 		} ;
 
 	data_end = (sf_count_t) au_fmt.dataoffset + (sf_count_t) au_fmt.datasize ;
-	if (psf->fileoffset > 0)
+	if (psf->fileoffset > 0 && data_end <= psf->filelength)
 	{	psf->filelength = data_end ;
 		psf_log_printf (psf, "  Data Size   : %d\n", au_fmt.datasize) ;
 		}
